@@ -41,6 +41,13 @@ def step (st : St) (l : Line) : St × Verdict :=
       kv "Rdangling" l.impl, kv "Rlisteners" l.impl, kv "mid" l.impl with
   | some res, some la, some ll, some ra, some rl, some rd, some rlst, some mid =>
     if res.startsWith "PANIC:" then (st', .specFail ("C10.panic." ++ (res.drop 6).toString) s!"{l.op} panics")
+    else if l.op == "burst" then
+      -- concurrent registrations on a teamserver of its own: a restart brings back exactly the acknowledged ones
+      let acked := match kv "acked" l.impl with | some "-" | none => [] | some a => a.splitOn ";"
+      if rd ≠ "-" then (st', .specFail "C10.dangling" s!"after {l.op}: TS_Links names {rd}")
+      else if sortS (idsOf ra) ≠ sortS acked then
+        (st', .specFail "C10.agents-set" s!"after {l.op} {l.args.take 2}: {acked.length} registrations were acknowledged ({sortS acked}); a restart reloads {sortS (idsOf ra)}")
+      else (st', .ok)
     else if ((kv "Rwrite" l.impl).getD "ok").startsWith "LOST" then
       (st', .specFail "C10.restart-writes-lost" s!"after {l.op} {l.args.take 2}: the database was reopened and restored the way Teamserver.Start does; what is recorded afterwards is not there at the next restart ({(kv "Rwrite" l.impl).getD ""})")
     else if rd ≠ "-" then
@@ -51,7 +58,6 @@ def step (st : St) (l : Line) : St × Verdict :=
       (st', .specFail "C10.metadata" s!"after {l.op} {l.args.take 2}: a reloaded session's id/key/IV/metadata differs from the live one")
     else if rl ≠ ll then
       (st', .specFail "C10.links" s!"after {l.op} {l.args.take 2}: reloaded parent/child pairs {rl}, live {ll}")
-    else if l.op == "burst" then (st', .ok)     -- a teamserver of its own: no listeners there
     else
       let midBad := (mid.splitOn "~").find? fun m => m ≠ "-" ∧ ((m.splitOn ":").getD 1 "-") ≠ "-"
       match midBad with
